@@ -2,7 +2,6 @@ package c04
 
 import (
 	"bytes"
-	"context"
 	"encoding/json"
 	"errors"
 	"fmt"
@@ -70,6 +69,8 @@ type parent struct {
 	wall              map[string]time.Duration
 	nviolByWitness    map[int]bool
 	slow              []SlowRec
+	retSeen           map[string]bool
+	retPerDriver      map[string]int
 }
 
 func Run(r *ev.Run, replay string) {
@@ -86,7 +87,7 @@ func Run(r *ev.Run, replay string) {
 		r.Inconclusive("cannot find own executable: " + err.Error())
 		return
 	}
-	p := &parent{r: r, exe: exe, watchdogFired: map[string]int{}, wall: map[string]time.Duration{}, nviolByWitness: map[int]bool{}}
+	p := &parent{r: r, exe: exe, watchdogFired: map[string]int{}, wall: map[string]time.Duration{}, nviolByWitness: map[int]bool{}, retSeen: map[string]bool{}, retPerDriver: map[string]int{}}
 	p.dir = filepath.Join(ev.Root, "build", "c04", fmt.Sprintf("run-%d-%d", r.Seed, os.Getpid()))
 	if err := os.MkdirAll(p.dir, 0o755); err != nil {
 		r.Inconclusive("cannot create scratch dir: " + err.Error())
@@ -444,6 +445,18 @@ func (p *parent) absorb(b *batch, s *Summary) {
 		r.Count("calls:"+k, v)
 	}
 	for k, v := range s.Ret {
+		// At most 40 return classes per driver in the evidence; the rest is lumped.
+		d, _, _ := strings.Cut(k, "|")
+		p.mu.Lock()
+		if !p.retSeen[k] {
+			if p.retPerDriver[d] >= 40 && strings.Contains(k, "|err:") {
+				k = d + "|err:(other families)"
+			} else {
+				p.retSeen[k] = true
+				p.retPerDriver[d]++
+			}
+		}
+		p.mu.Unlock()
 		r.Count("ret:"+k, v)
 	}
 	for k, v := range s.Features {
@@ -563,6 +576,3 @@ func depsLines(s string, n int) string {
 	}
 	return strings.Join(out, " | ")
 }
-
-var _ = sort.Strings
-var _ = context.Background
